@@ -833,7 +833,7 @@ def _one(ctx, case, src, ref, o, d, label, rnd):
     if bad:
         raise _Abort()
     ctx.note("optset:%s/%s/%s/%s/%s/%s%s" % (o["split"], "asm" if o["disasm"] else "hex", o["nl"], o["bitmap"], o["via"],
-                                             o["model"], "/sel" if sel else ""))
+                                             o["model"], ("/sel" if sel else "") + ("/path=" + style if style != "abs" else "")))
     return {"options": _opt_id(o), "tables_dumped": len(dumped), "tables_compared": len(ref),
             "src_includes": _cur["src"], "whitespace_normalised_tables": nws}
 
